@@ -1233,9 +1233,9 @@ def sweep_jobs(root: int, groups: list, refcache: RefCache, specs: list, hot_inf
 # batch
 # --------------------------------------------------------------------------
 
-TIERS = {"quick": {"runs": 800, "wall": 420.0, "groups": 7, "hot_cap": 600, "hot3_cap": 100,
+TIERS = {"quick": {"runs": 600, "wall": 420.0, "groups": 7, "hot_cap": 600, "hot3_cap": 100,
                    "sweeps": [(0, "call", 48), (1, "call", 48), (2, "call", 8), (3, "call", 64), (4, "call", 48),
-                              (5, "call", 1024), (6, "call", 48), (0, "line", 384)]},
+                              (5, "call", 2048), (6, "call", 48), (0, "line", 384)]},
          "thorough": {"runs": 60000, "wall": 3000.0, "groups": 10, "hot_cap": 4000, "hot3_cap": 2500,
                       "sweeps": [(i, "callret", 1) for i in range(10)] + [(i, "line", 4) for i in range(10)]}}
 
